@@ -14,7 +14,7 @@
    An Iter's cursor it.c (a *stree.Cursor) is the pair (nil flag, list of node addresses) the
    generated Cursor methods take; c_Valid ... c_Key call G.Cursor_Valid ... G.Cursor_Key on the
    heap of the map's tree. *)
-From Coq Require Import ZArith List Bool Arith Lia String.
+From Coq Require Import ZArith List Bool Arith Lia.
 From Mds Require Import Common.FnRt Common.FnHeap GenTie.TieLib GenTie.StreeTieBase GenTie.StreeSep
   GenTie.StreeSource GenTie.StreeSourceSim.
 From Mds Require Gen.FnOmap Omap.OmapModel.
@@ -78,24 +78,3 @@ Proof.
 Qed.
 
 End OmapTie.
-
-(* The method arguments of the generated functions are POSITIONAL.  Gen/FnOmap.v states for every
-   function which stree method (or nil test / nil value of which field) each such argument stands
-   for, by name in argument order (<f>_objargs, directive objargs).  The ties hand g_Len to "m.Len",
-   g_Get to "m.Get", g_Replace to "m.Replace" ...: this lemma pins that reading, so that a Set that
-   calls m.m.Add (same type as Replace) does not pass unnoticed. *)
-Lemma omap_objargs :
-  O.Len_objargs = ["m == nil"; "m.Len"]%string /\
-  O.GetOK_objargs = ["m == nil"; "m.Get"]%string /\
-  O.Get_objargs = ["m == nil"; "m.Get"]%string /\
-  O.Set__objargs = ["m.Replace"]%string /\
-  O.Delete_objargs = ["m == nil"; "m.Remove"]%string /\
-  O.Clear_objargs = ["m == nil"; "m.Clear"]%string /\
-  O.Keys_objargs = ["m == nil"; "m.Len"; "m.Inorder"]%string /\
-  O.IsValid_objargs = ["c.Valid"]%string /\
-  O.Next__objargs = ["c.Next"]%string /\
-  O.Prev_objargs = ["c.Prev"]%string /\
-  O.Key_objargs = ["c.Key"]%string /\
-  O.Value_objargs = ["c.Key"]%string /\
-  O.Seek_objargs = ["nil c"; "m == nil"; "m.InorderAfter"; "m.Cursor"]%string.
-Proof. repeat split; reflexivity. Qed.
